@@ -715,7 +715,7 @@ def run(prop: str, tier: str) -> int:
             "Same exploration as C03, judged for the error contract: every path ends in a tree that passes the structure audit "
             "(links, arity, no node object twice) or in ParserException/ValueError; any other exception is a violation. "
             "Termination: every path is finite (a step budget turns a runaway path into an inconclusive one).")
-    explore_tokens(prop, rep, Nmax, 400 if tier == "quick" else 3000)
+    explore_tokens(prop, rep, Nmax, 400 if tier == "quick" else 720)
     lit = literal_worker(None)
     lit["violations"] = [v for v in lit["violations"] if v.prop == prop]
     rep.absorb(lit)
